@@ -122,9 +122,10 @@ func corpus() []Scenario {
 		{Kind: "basic", Beh: Beh{Fork: true, ExitOnDone: -1}, Sched: sch("launch timer start exit stop")},                     // was C17-h: the forked child is swept
 		{Kind: "basic", Beh: Beh{Fork: true, ExitOnDone: -1}, Sched: sch("launch timer start stop")},                          // group kill works
 		{Kind: "ctl", Beh: nb, Sched: sch("launch kill settle")},                                 // C17-j: KILL before the dial is refused
-		{Kind: "ctl", Beh: nb, Sched: sch("launch listen kill settle")},                          // C17-e: crash under the start-up poll
+		{Kind: "ctl", Beh: nb, Sched: sch("launch listen kill settle")},                          // was C17-e: killed under the start-up poll, reports KILLED
 		{Kind: "ctl", Beh: Beh{Ign: true, ExitOnDone: -1}, Sched: sch("launch listen ready kill kill settle")}, // was C17-f: second KILL refused
 		{Kind: "ctl", Beh: Beh{Fork: true, ExitOnDone: -1}, Sched: sch("launch listen ready kill settle")},     // was C17-g: forked child swept
+		{Kind: "ctl", Beh: Beh{Fork: true, BadStart: true, ExitOnDone: -1}, Sched: sch("launch listen ready kill settle")}, // was C17-k: wrong start state, group swept
 		{Kind: "ctl", Beh: Beh{Ign: true, ExitOnDone: -1}, Sched: sch("launch listen ready conf start kill settle")}, // full escalation
 		{Kind: "ctl", Beh: Beh{ExitOnDone: 0}, Sched: sch("launch listen ready kill settle")},    // leaves on DONE
 		{Kind: "ctl", Beh: Beh{TransFail: true, ExitOnDone: -1}, Sched: sch("launch listen ready conf kill settle")}, // KILLED
